@@ -27,20 +27,23 @@ MANIFEST = dict(
           "depth, literals, _, one ellipsis per level after a pattern variable with a fixed tail of any length; uses "
           "that do not leave exactly the tail's length at such an ellipsis) pattern_match with the entry point's fuel "
           "returns exactly the R7RS match and its bindings are the flat reading of the R7RS environment; the rule loop "
-          "selects the first R7RS-matching rule; eleven refutation lemmas with concrete witnesses for the recorded "
+          "selects the first R7RS-matching rule; the template instantiator expand (with its per-variable cursors) equals the "
+          "specification's instantiation on accepted templates within the entry point's fuel and leaves every cursor "
+          "reset (C17_expand_sound); hence on the supported fragment the whole transformer IS the R7RS specification "
+          "function - sound, complete, terminating, independent of the fuel margin (C17_main, C17_supported_exact); "
+          "eleven refutation lemmas with concrete witnesses for the recorded "
           "classes outside the fragment (nested ellipsis, variable twice under an ellipsis incl. a non-terminating "
           "one, vector/dotted templates, ellipsis variable without ellipsis, stale cursor, dotted patterns, ellipsis "
           "tail with zero items, vector patterns). Tied to /repo by generated transformers x uses through the direct "
           "API and through Vm::eval, 3-way (impl / extracted model / vm_compute) plus an independent Python R7RS "
           "oracle; every oracle failure must fall in a recorded class."),
     design="DESIGN.md section 5 C17",
-    note=("OPEN (stated in Props/C17.v as Definitions, not proved): C17_expand_sound_stmt (expand = R7RS instantiation on "
-          "S_tmpl within the entry point's fuel) and C17_main_stmt (whole pipeline on the supported fragment); ellipsis "
-          "after a sub-pattern/sub-template is outside the proved fragment and covered by the differential check and "
+    note=("No OPEN statement inside the supported fragment. C17_full (all transformers) is false and kept visible with its "
+          "refutations; ellipsis after a sub-pattern/sub-template and dotted patterns are outside the proved fragment and covered by the differential check and "
           "the oracle only. Trusted: Coq kernel, the hand-written model (differential correspondence, sampling), "
           "extraction + OCaml driver (cross-checked in-kernel on a sub-sample), Rust harness (worker subprocess with "
           "time/address-space limit = TIMEOUT), Python oracle lib/props/srspec.py (cross-checked against Model/SRSpec.v "
-          "through wire interface 52 during development). Axioms: none (all theorems closed under the global context)."),
+          "through wire interface 52 during development). Axioms: the soundness theorems are closed under the global context; the refutation lemmas, whose statements parse text containing numbers, report the four standard Reals axioms via Flocq."),
     technique="Rocq/Coq proof (induction over patterns/uses, loop invariants of the iterator state machine) + model/implementation correspondence check")
 
 VARS = ["a", "b", "c", "d", "e", "f", "g", "h"]
